@@ -8,6 +8,7 @@ LEVEL_NOTE = ('bounded: four 8-bit encodings (utf-8, iso-8859-1, koi8-r, cp1251)
               'decoding done inside the codecs module and unknown charset names are outside the domain')
 TECHNIQUE = ('bounded run-time contracts over exhaustively enumerated configuration matrices; the oracle is the precedence ladder of the statement and a reference CSS un-escaper, evaluated on the '
              'unmodified cssutils code')
+LEVEL_TEXT = LEVEL_TEXT + ' The encoding precedence ladder of util._readUrl and the css codec decode/encode are additionally proved for all inputs by PyVC (obligations/discharged in the evidence); the claim level stays exploration because nested-import hand-over and the serialisation clauses are bounded.'
 DESIGN_REF = 'DESIGN.md section 3, C08'
 
 
@@ -19,3 +20,8 @@ def bounded(ctx):
     c08.utf16_rows(ctx)
     c08.encoding_attribute(ctx)
     c08.serialisation(ctx)
+
+
+# T1 (PyVC): the precedence ladder of _readUrl for text and bytes content, and the css codec's decode/encode (shared with C07),
+# are proved for all inputs; everything else of the statement is decided by the bounded stand-in above.
+T1 = [('contracts.util_readurl', None), ('contracts.codec', ['decode', 'encode', 'detectencoding_str', 'detectencoding_unicode'])]
